@@ -1,6 +1,7 @@
 import SaphyrModel.Sc.Scan2
 import SaphyrModel.Proofs.BlockLit
 import SaphyrModel.Proofs.BlockLitToken
+import SaphyrModel.Proofs.BlockFold
 /-! # C05 — Block scalars (function-level theorems)
 
 **Proved** (string input, for every list of content lines, every indentation ≥ 1, every accumulated prefix):
@@ -22,8 +23,12 @@ import SaphyrModel.Proofs.BlockLitToken
   literal scalar whose text is the lines joined by line feeds and chomped as the header says (strip — no final
   break; clip, keep — one), spanning from the first content line to column 0 of the line after the last.
 
-**Not proved**: folded style (joining of adjacent non-indented lines), blank and more- or less-indented line
-bookkeeping between content lines, explicit indentation indicators, the end-of-stream cases. For
+* `folded_block_scalar_token` — the same for the folded style (`>`), for content lines none of which starts with
+  a blank: the text is the lines joined by *single spaces* (each single line break between two such lines is
+  folded into one space), chomped as the header says.
+
+**Not proved**: in folded style the more-indented and blank lines (which are not folded), blank and more- or
+less-indented line bookkeeping between content lines, explicit indentation indicators, the end-of-stream cases. For
 those the check relies on the exhaustive enumeration of line lists against the independent §8.1 reference and
 on the correspondence. -/
 namespace SaphyrModel.C05
@@ -115,6 +120,37 @@ example :
         { mkSc .str 0 ['-','\r','\n',' ',' ','a','b','\n',' ',' ',' ','c','\r','x'] with indent := 0, mark := ⟨5, 1, 4⟩ } with
      | .ok (tok, u') => decide (tok.ty = .scalar .literal ['a','b','\n',' ','c']) && tok.span.start.line == 2 &&
          tok.span.start.col == 2 && tok.span.stop.line == 4 && tok.span.stop.col == 0 && decide (u'.inp.iter = ['x'])
+     | _ => false) = true := by decide +kernel
+
+open SaphyrModel.C14L SaphyrModel.C05T SaphyrModel.C05F in
+/-- **A whole folded block scalar: single line breaks between text lines become single spaces — for every list
+    of lines.** As `literal_block_scalar_token`, after a `>`: header ``/`-`/`+`, a break in any spelling, a first
+    content line indented by `ind ≥ 1` spaces and any number of further lines at that indentation, every line
+    non-empty, free of breaks and NUL and *not starting with a blank*, each ended by its own spelling of a break;
+    then text that does not start with a space or a break. The token returned is a *folded scalar* whose text is
+    the lines joined by single spaces, followed by one line feed unless the header says strip. -/
+theorem folded_block_scalar_token (sm : Marker) (hd : Hdr) (b0 : Brk) (ind : Nat) (hind : ind ≠ 0) (tail : Str)
+    (ht1 : tail.headD '\x00' ≠ ' ') (ht2 : isBreak (tail.headD '\x00') = false) (ls : List (Str × Brk)) (l : Str) (b : Brk)
+    (hl : FoldLine l) (hls : ∀ p ∈ ls, FoldLine p.1) (u : Sc) (L : Nat)
+    (hI : (u.indent + 1).toNat ≤ ind) (hk : u.inp.kind = .str) (hline : u.mark.line = L)
+    (hi : u.inp.iter = hd.txt ++ (b0.txt ++ (List.replicate ind ' ' ++ (l ++ (b.txt ++ restLinesB ind ls tail))))) :
+    (∃ p, scanBlockScalarBody false sm u = .panic p) ∨
+    ∃ tok u', scanBlockScalarBody false sm u = .ok (tok, u') ∧
+      tok.ty = .scalar .folded (chomped hd.chomp (joinSp l (ls.map Prod.fst))) ∧
+      tok.span.start.line = L + 1 ∧ tok.span.start.col = ind ∧
+      tok.span.stop.line = L + 1 + ls.length + 1 ∧ tok.span.stop.col = 0 ∧
+      u'.inp.iter = tail ∧ u'.mark.line = L + 1 + ls.length + 1 ∧ u'.mark.col = 0 := by
+  rcases folded_block_token sm hd b0 ind hind tail ht1 ht2 ls l b hl hls u L u.mark.col u.indent _ hI
+      ⟨hk, hi, hline, rfl, rfl, rfl⟩ with h | ⟨tok, u', hok, ⟨h1, h2, h3, h4, h5, _, _⟩, _, h7, h8, h9, _⟩
+  · exact Or.inl h
+  · exact Or.inr ⟨tok, u', hok, h1, h2, h3, h4, h5, h7, h8, h9⟩
+
+/-- non-vacuity: `>`, LF, then `ab` (CR LF), `cd` (LF), `e` (lone CR) at indentation 1, then `x`: `ab cd e\n` -/
+example :
+    (match scanBlockScalarBody false ⟨0, 1, 0⟩
+        { mkSc .str 0 ['\n',' ','a','b','\r','\n',' ','c','d','\n',' ','e','\r','x'] with mark := ⟨1, 1, 1⟩ } with
+     | .ok (tok, u') => decide (tok.ty = .scalar .folded ['a','b',' ','c','d',' ','e','\n']) && tok.span.start.line == 2 &&
+         tok.span.stop.line == 5 && decide (u'.inp.iter = ['x'])
      | _ => false) = true := by decide +kernel
 
 end SaphyrModel.C05
